@@ -38,7 +38,7 @@ def clip(self, lower=-inf, upper=inf):
     if not lower < upper:
         raise ValueError("'lower' must be strictly less than 'upper'.")
     if lower == -inf and upper == inf:
-        return self
+        return self.copy()
     left_index, right_index = _get_slice_index(
         self, lower, upper, lower_how="right", upper_how="left"
     )
